@@ -1369,9 +1369,9 @@ class ContinuousSpace:
             agent: Agent object to place.
             pos: Coordinate tuple for where to place the agent.
         """
+        pos = self.torus_adj(pos)
         self._invalidate_agent_cache()
         self._agent_to_index[agent] = None
-        pos = self.torus_adj(pos)
         agent.pos = pos
 
     def move_agent(self, agent: Agent, pos: FloatCoordinate) -> None:
